@@ -105,6 +105,17 @@ theorem fluxN_spatial (e : Env K) (hN : NormalOK e) (S : Fin 4 → Fin 4 → K) 
   rw [Fin.sum_univ_succ (n := 3)]
   simp only [(hN.time _).2, hN.space, zero_mul, Finset.sum_const_zero, zero_add, Finset.mul_sum, mul_assoc]
 
+/-- the hypothesis `hR` of H1/H2 holds BY CONSTRUCTION when the code's Ricci tensor is the contraction of the cached
+`s_Riemann_down3` (the alternative core.py takes when `s_Riemann_down3` is present): `s_RicciS = γ^{jl}γ^{ik} ³R_ijkl` with
+`³R_ijkl := s_Riemann_down3`.  (For the default alternative, `C05.s_Ricci_down3_alt_spec` shows both alternatives agree
+when `γ^{ic}γ_{ai} = δ`.) -/
+theorem s_RicciS_is_double_contraction (e : Env K) (hS : e.s_RicciS = s_RicciS e)
+    (hRic : e.s_Ricci_down3 = s_Ricci_down3__s_Riemann_down3 e) :
+    e.s_RicciS = ricciS3 e.gammaup3 e.s_Riemann_down3 := by
+  rw [hS]
+  simp only [hRic, core_unfold, ricciS3, Fin.sum_univ_three]
+  ring
+
 /-! ## H1, H2: the Hamiltonian constraint -/
 
 /-- **H1  `Hamiltonian = 2 (G_μν + Λ g_μν − κ T_μν) n^μ n^ν`** (contracted Gauss equation); vacuum branch `2 G_μν n^μn^ν`. -/
